@@ -577,6 +577,17 @@ func parseValues(txt string, m Model) {
 			}
 		case []interface{}:
 			// (- N), (/ a b) and nestings: numerals of Int/Real sort, rounded to the nearest integer
+			if len(v) == 2 {
+				// (- N) with an integer numeral: exact
+				if s0, ok := v[0].(string); ok && s0 == "-" {
+					if s1, ok := v[1].(string); ok {
+						if n, err := strconv.ParseUint(s1, 10, 64); err == nil {
+							m[name] = uint64(-int64(n))
+							continue
+						}
+					}
+				}
+			}
 			if f, ok := evalNumeral(v); ok {
 				m[name] = uint64(int64(math.Round(f)))
 				continue
